@@ -104,6 +104,7 @@ type Template struct {
 	Private     bool
 	Body        []Node
 	NoDoc       bool // no soydoc block at all (only legal without params)
+	SoydocExtra []ParamDecl // params additionally declared in soydoc although HeaderStyle is set (violates the one-style rule)
 }
 type File struct {
 	Name       string
@@ -391,6 +392,13 @@ func FileSrc(f *File, lay Layout, lines map[Node]int) string {
 	}
 	for _, t := range f.Templates {
 		w.s("\n")
+		if t.HeaderStyle && len(t.SoydocExtra) > 0 {
+			w.s("/**\n")
+			for _, p := range t.SoydocExtra {
+				w.s(" * @param " + p.Name + " desc\n")
+			}
+			w.s(" */\n")
+		}
 		if !t.HeaderStyle && !t.NoDoc {
 			w.s("/**\n")
 			for _, p := range t.Params {
